@@ -285,6 +285,10 @@ class Check:
         ev = os.path.join(EVIDENCE, self.prop + ".json")
         if os.path.exists(ev):
             os.remove(ev)
+        if os.path.isdir(REPLAY):
+            for fn in os.listdir(REPLAY):
+                if fn.startswith(self.prop + "_"):
+                    os.remove(os.path.join(REPLAY, fn))
         return self
 
     def __exit__(self, et, ev, tb):
